@@ -31,7 +31,7 @@ class Gen:
             max_t=4, max_m=4, p_nonexcl=0.25, p_nested=0.15, p_struct=0.45, p_alias=0.2,
             p_rel=0.5, p_two_mods=0.2, p_fsm=0.12, p_wit=0.5, p_validate=0.2, p_enable=0.3,
             p_defect=0.0, sched="eager", p_body_in_struct=0.15, rdep_rel=True, nested=True,
-            p_rdyrun=0.0, p_badrun=0.0, p_chain=0.0,
+            p_rdyrun=0.0, p_badrun=0.0, p_chain=0.0, p_relalias=0.0, p_xmod=0.0, p_constenable=0.0,
         )
         self.opt.update(opt)
         self.nin = 0
@@ -41,6 +41,7 @@ class Gen:
         self.sites = []
         self.wits = []
         self.rels = []
+        self.const0 = []
 
     def inp(self):
         self.nin += 1
@@ -90,10 +91,29 @@ class Gen:
             used = set()
             B["ch"] = self.content(b, meths, 0, used)
             self.reach[b] = used
+        # cross-module pair: body xa is defined under the If-alternative of the FIRST control structure of module 1,
+        # body xb under the Else-alternative of the FIRST control structure of module 2, and they are related by
+        # add_conflict.  Alternatives of structures of different modules are not mutually exclusive.
+        xpair = {}
+        if o["p_xmod"] > 0 and nmods == 2 and r.random() < o["p_xmod"]:
+            c1 = [b for b in order if self.bodies[b - 1]["mod"] == 1 and not self.bodies[b - 1]["parent"]]
+            c2 = [b for b in order if self.bodies[b - 1]["mod"] == 2 and not self.bodies[b - 1]["parent"]]
+            if c1 and c2:
+                xa, xb = r.choice(c1), r.choice(c2)
+                if r.random() < 0.5:
+                    xpair = {xa: 0, xb: 1}
+                else:
+                    xpair = {xa: 1, xb: 0}
+                self.rels.append(dict(a=xa, b=xb, kind="conflict", prio=r.choice(["U", "L", "R"]), rdep=False))
         # place definitions
         for b in order:
             B = self.bodies[b - 1]
             node = {"t": "body", "b": b}
+            if b in xpair:
+                alts = [{"cond": self.inp(), "ch": []}, {"cond": 0, "ch": []}]
+                alts[xpair[b]]["ch"].append(node)
+                roots[B["mod"]].insert(0, {"t": "if", "alts": alts})
+                continue
             if B["parent"]:
                 self.insert_somewhere(self.bodies[B["parent"] - 1]["ch"], node)
             elif r.random() < o["p_body_in_struct"]:
@@ -130,6 +150,12 @@ class Gen:
                         a, c = c, a
                     self.rels.append(dict(a=a, b=c, kind="before", prio="L",
                                           rdep=o["rdep_rel"] and r.random() < 0.3))
+        # a relation may be declared on a forwarding method (Method.provide) instead of on the method itself;
+        # it then relates the underlying method (aal / bal = length of the provide() chain at that endpoint)
+        for rel in self.rels:
+            for end, key in ((rel["a"], "aal"), (rel["b"], "bal")):
+                rel[key] = r.randint(1, 2) if (o["p_relalias"] > 0 and self.bodies[end - 1]["kind"] == "M"
+                                               and r.random() < o["p_relalias"]) else 0
         # priority chains: t0 - t1 - t2 (- t3) conflict pairwise along a path, the ends do not conflict; with
         # LEFT/RIGHT priorities the middle transaction sits between its neighbours in the scheduling order, so
         # "blocked by a neighbour that itself lost" is distinguishable from "blocked by a running neighbour"
@@ -165,7 +191,7 @@ class Gen:
                 if not any(x["kind"] == "before" and x["a"] == a and x["b"] == b for x in self.rels):
                     self.rels.append(dict(a=a, b=b, kind="before", prio="L", rdep=o["rdep_rel"] and r.random() < 0.3))
         return dict(nin=self.nin, nargs=self.nargs, bodies=self.bodies, sites=self.sites, wits=self.wits,
-                    rels=self.rels, sched=o["sched"], roots=[roots[1], roots[2]], nmods=nmods)
+                    rels=self.rels, sched=o["sched"], roots=[roots[1], roots[2]], nmods=nmods, const0=self.const0)
 
     def wrap_in_struct(self, node):
         r = self.r
@@ -204,6 +230,17 @@ class Gen:
         C = self.bodies[callee - 1]
         s = dict(caller=caller, callee=callee, en=self.inp() if r.random() < o["p_enable"] else 0,
                  argk="n", argv=0, alias=r.randint(1, 3) if r.random() < o["p_alias"] else 0)
+        # a constant enable_call (elaboration-time flag): constant false is modelled as an input that every
+        # valuation drives to 0 (design["const0"]) while the circuit gets the Python/Amaranth constant
+        if o["p_constenable"] > 0 and r.random() < o["p_constenable"]:
+            if r.random() < 0.6:
+                if not s["en"]:
+                    s["en"] = self.inp()
+                s["enc"] = r.choice(["F", "0", "C0"])
+                self.const0.append(s["en"])
+            else:
+                s["en"] = 0
+                s["enc"] = r.choice(["T", "C1"])
         if C["hasarg"]:
             if r.random() < 0.7:
                 s["argk"], s["argv"] = "i", self.arg()
@@ -505,7 +542,11 @@ def build(design, scheduler=None, netlist_only=False):
                         kw["a"] = H.arg[S["argv"]]
                     elif S["argk"] == "c":
                         kw["a"] = S["argv"]
-                    if S["en"]:
+                    if S.get("enc"):
+                        cen = {"F": False, "0": 0, "C0": Const(0), "T": True, "C1": Const(1)}[S["enc"]]
+                        res = callee(m, enable_call=cen, **kw)
+                        m.d.comb += H.swit[n["s"]].eq(Const(1) if S["enc"] in ("T", "C1") else Const(0))
+                    elif S["en"]:
                         res = callee(m, enable_call=sig(S["en"]), **kw)
                         m.d.comb += H.swit[n["s"]].eq(sig(S["en"]))
                     else:
@@ -541,8 +582,16 @@ def build(design, scheduler=None, netlist_only=False):
                 H.obj[b] = Transaction(name=f"t{b}")
             else:
                 H.obj[b] = Method(name=f"m{b}", i=[("a", NARGBITS)] if B["hasarg"] else [], o=[("r", NARGBITS)])
+        def endpoint(b, k):
+            o = H.obj[b]
+            for _ in range(k):
+                al = Method(i=o.layout_in, o=o.layout_out)
+                al.provide(o)
+                o = al
+            return o
+
         for rel in design["rels"]:
-            a, c = H.obj[rel["a"]], H.obj[rel["b"]]
+            a, c = endpoint(rel["a"], rel.get("aal", 0)), endpoint(rel["b"], rel.get("bal", 0))
             if rel["kind"] == "conflict":
                 a.add_conflict(c, {"U": Priority.UNDEFINED, "L": Priority.LEFT, "R": Priority.RIGHT}[rel["prio"]])
             else:
@@ -658,5 +707,8 @@ def valuations(design, rng: random.Random, max_cycles=512, sticky=0.0):
         for i in range(nin):  # all-ones with single input flipped
             out.append([0 if j == i else 1 for j in range(nin)])
         out.append([1] * nin)
+    for v in out:
+        for i in design.get("const0", ()):
+            v[i - 1] = 0
     return [{"inp": v, "args": [rng.randint(0, 3) for _ in range(nargs)],
              "mouts": [rng.randint(0, 3) for _ in range(nb)]} for v in out]
